@@ -203,7 +203,7 @@ def main():
         return 3
 
     # every task runs in its own process with a deadline; a task that does not finish is *undecided* (never a violation)
-    per_task = int(os.environ.get("VERIF_TASK_TIMEOUT", "900" if tier == "quick" else "2400"))
+    per_task = int(os.environ.get("VERIF_TASK_TIMEOUT", "1500" if tier == "quick" else "3000"))
     tasks = [("contract", t, _contract_worker, (t, seed)) for t in targets]
     if any(REGISTRY[t].uses for t in targets):
         tasks.append(("lemmas", "lemmas", _lemma_worker, 0))
